@@ -31,3 +31,5 @@ open Mud.C02
 #print axioms Mud.StepThm.shStep_common
 #print axioms Mud.StepThm.shRun_rho_valid
 #print axioms Mud.StepThm.afStep_rho
+#print axioms Mud.StepThm.pureState_Valid
+#print axioms Mud.StepThm.afRun_rho_valid
